@@ -198,7 +198,10 @@ class Ctx:
             open(cfgp, "w").write(cfg)
         else:
             cfgp = cfg if os.path.isabs(cfg) else os.path.join(mdir, cfg)
-        jv = ["java", "-XX:+UseParallelGC", "-Xmx" + heap, "-DTLA-Library=" + libs]
+        # TLC unpacks the standard modules into java.io.tmpdir at every run: keep that inside the meta directory (removed below)
+        jtmp = os.path.join(meta, "jtmp")
+        os.makedirs(jtmp, exist_ok=True)
+        jv = ["java", "-XX:+UseParallelGC", "-Xmx" + heap, "-DTLA-Library=" + libs, "-Djava.io.tmpdir=" + jtmp]
         if dfs:
             jv.append("-Dtlc2.tool.queue.IStateQueue=StateDeque")
         argv = jv + ["-cp", TLA_JAR, "tlc2.TLC", "-workers", str(workers), "-metadir", meta, "-config", cfgp,
